@@ -159,6 +159,12 @@ class SliceView:
         return self.base[self.start:self.end]
 
 
+class SymEnum:
+    """a field-less enum value whose variant is symbolic: z3 Int `var` indexes `variants`"""
+    def __init__(self, var, variants):
+        self.var, self.variants = var, list(variants)
+
+
 class FnItem:
     """a function item used as a value (e.g. `iter.map(CachedEnvelope::new)`)"""
     def __init__(self, path):
@@ -740,7 +746,7 @@ class Interp:
         m = re.fullmatch(r'<[\w:]+ as Partial(?:Ord|Eq)>::(\w+)', c)
         if m:
             op = {'gt': 'Gt', 'lt': 'Lt', 'ge': 'Ge', 'le': 'Le', 'eq': 'Eq', 'ne': 'Ne'}[m.group(1)]
-            if isinstance(d[0], Enum) or isinstance(d[1], Enum):
+            if isinstance(d[0], (Enum, SymEnum)) or isinstance(d[1], (Enum, SymEnum)):
                 if op not in ('Eq', 'Ne'):
                     # derived PartialOrd on field-less enums = declaration order (read from the source)
                     a_, b_ = d[0], d[1]
@@ -981,6 +987,15 @@ class Interp:
     def struct_eq(self, a, b):
         """derived PartialEq on aggregates / enums; anything else is refused, never guessed"""
         a, b = deref(a), deref(b)
+        if isinstance(a, SymEnum) or isinstance(b, SymEnum):
+            if isinstance(a, SymEnum) and isinstance(b, SymEnum):
+                if a.variants != b.variants:
+                    raise Untranslatable('comparison of symbolic enums of different types')
+                return a.var == b.var
+            se, en = (a, b) if isinstance(a, SymEnum) else (b, a)
+            if not isinstance(en, Enum) or en.fields or en.variant not in se.variants:
+                raise Untranslatable('comparison of a symbolic enum with %r' % (en,))
+            return se.var == se.variants.index(en.variant)
         if isinstance(a, Enum) and isinstance(b, Enum):
             if a.variant != b.variant or len(a.fields) != len(b.fields):
                 return False
